@@ -60,6 +60,11 @@ type selectorIn struct {
 }
 
 type input struct {
+	// Kind "" = store pruning (storeMatches / matchingStores); "selm" = MatchersForLabelSets
+	Kind   string  `json:"kind,omitempty"`
+	Lsets  [][]lbl `json:"lsets,omitempty"`
+	Probes [][]lbl `json:"probes,omitempty"`
+
 	Sel      []lbl         `json:"sel"`
 	Ms       []matcherIn   `json:"ms"`
 	Dbg      [][]matcherIn `json:"dbg"`
@@ -148,6 +153,9 @@ func run(raw json.RawMessage) (common.Case, error) {
 		return common.Case{}, err
 	}
 	var c common.Case
+	if in.Kind == "selm" {
+		return runSelM(in)
+	}
 	sel := mkLabels(in.Sel)
 
 	// universe of strings the matchers are asked about
@@ -392,6 +400,99 @@ func run(raw json.RawMessage) (common.Case, error) {
 	return c, nil
 }
 
+// runSelM: the extra matchers generated for the label sets kept by the TSDB selector, and the
+// verdict of the real regex matchers on probe series.
+func runSelM(in input) (common.Case, error) {
+	var c common.Case
+	c.Class = "selector-matchers"
+	var lsets []labels.Labels
+	var coqL []string
+	for _, l := range in.Lsets {
+		x := mkLabels(l)
+		lsets = append(lsets, x)
+		coqL = append(coqL, coqLabels(x))
+	}
+	ms := store.MatchersForLabelSets(lsets)
+	sort.Slice(ms, func(i, j int) bool { return ms[i].Name < ms[j].Name })
+	var coqMs []string
+	var pms []*labels.Matcher
+	for _, m := range ms {
+		coqMs = append(coqMs, common.Pair(common.Bytes(m.Name), common.Bytes(m.Value)))
+		pm, err := storepb.MatcherToPromMatcher(m)
+		if err != nil {
+			return c, err
+		}
+		pms = append(pms, pm)
+	}
+	var coqP []string
+	for _, p := range in.Probes {
+		l := mkLabels(p)
+		var bs []string
+		carried := -1
+		for i, e := range lsets {
+			ok := true
+			e.Range(func(x labels.Label) {
+				if l.Get(x.Name) != x.Value {
+					ok = false
+				}
+			})
+			if ok && carried < 0 {
+				carried = i
+			}
+		}
+		for _, pm := range pms {
+			acc := pm.Matches(l.Get(pm.Name))
+			bs = append(bs, common.Bool(acc))
+			if !acc && carried >= 0 {
+				c.GoPred = fmt.Sprintf("series %s carries the kept label set %s but the extra matcher %s rejects it", l, lsets[carried], pm)
+				c.Sig = "selector-matcher-rejects"
+				if !lsets[carried].Has(pm.Name) && l.Has(pm.Name) {
+					c.Sig = "selector-matcher-rejects-own-label"
+				}
+			}
+		}
+		coqP = append(coqP, common.Pair(coqLabels(l), common.List(bs)))
+	}
+	c.Coq = common.App("CSelM", common.List(coqL), common.List(coqMs), common.List(coqP))
+	c.Obs = map[string]any{"matchers": fmt.Sprint(ms)}
+	c.Nontrivial = len(lsets) >= 2 && len(in.Probes) > 0
+	return c, nil
+}
+
+func genSelM(r *rand.Rand) input {
+	in := input{Kind: "selm"}
+	names := []string{"a", "b", "region"}
+	n := 1 + r.Intn(3)
+	homogeneous := r.Intn(10) != 0
+	base := names[:1+r.Intn(3)]
+	for i := 0; i < n; i++ {
+		var l []lbl
+		for _, nm := range base {
+			if !homogeneous && r.Intn(3) == 0 {
+				continue
+			}
+			l = append(l, lbl{nm, common.Pick(r, lvalues...)})
+		}
+		if len(l) == 0 { // an empty kept set makes every series "its" series (see the known finding)
+			l = append(l, lbl{base[0], common.Pick(r, lvalues...)})
+		}
+		in.Lsets = append(in.Lsets, l)
+	}
+	for k := r.Intn(4); k >= 0; k-- {
+		// a series of one of the kept sets, with own labels that no kept set mentions
+		p := append([]lbl(nil), in.Lsets[r.Intn(len(in.Lsets))]...)
+		p = append(p, lbl{"__name__", "up"})
+		if r.Intn(2) == 0 {
+			p = append(p, lbl{"zz", common.Pick(r, lvalues...)})
+		}
+		if r.Intn(4) == 0 { // a series of none of the sets
+			p = []lbl{{"a", "nope"}, {"region", common.Pick(r, lvalues...)}}
+		}
+		in.Probes = append(in.Probes, p)
+	}
+	return in
+}
+
 // ---- generator ----
 
 var (
@@ -450,6 +551,10 @@ func gen(r *rand.Rand, tier string, n int) []any {
 	var out []any
 	for i := 0; i < n; i++ {
 		var in input
+		if r.Intn(12) == 0 {
+			out = append(out, genSelM(r))
+			continue
+		}
 		if r.Intn(3) == 0 {
 			in.Sel = genLabels(r, 2)
 		}
